@@ -51,6 +51,7 @@ type admitCase struct {
 	Pauses   []pauseSpec // the client lets time pass before it sends packet Before (tcp: on that packet's connection), on the transport's virtual clock
 	Handler  string      // "" = a plain HandlerFunc; "mux" = a ServeMux of its own with the handler registered for example.org.; "default-mux" = Server.Handler nil, the handler registered with dns.Handle
 	NoAddr   []int       // udp (in-memory): packets whose sender has no address - ReadFrom returns a nil net.Addr, as a unixgram socket does for an unbound client
+	Restart  int         // udp (in-memory), no pauses: k > 0 = packets [0,k) are served by a first run of the Server value, which ShutdownContext with an expired context ends while the report about a last datagram shorter than a header is still open, the rest by a second run on a new socket (restart_test.go); 0 = one run
 }
 
 // timeoutSpec: milliseconds; 0 leaves the Server field at its zero value, for which server.go
@@ -193,6 +194,9 @@ func (c admitCase) wellFormed() bool {
 		}
 	}
 	if c.Timeouts.ReadMs < 0 || c.Timeouts.WriteMs < 0 || c.Timeouts.IdleMs < 0 {
+		return false
+	}
+	if c.Restart != 0 && (c.Restart < 0 || c.Restart >= len(c.Packets) || c.Transport != "udp" || len(c.Pauses) > 0) {
 		return false
 	}
 	if c.Transport == "tcp" {
@@ -338,7 +342,9 @@ func (o *observer) configure(srv *dns.Server, p policySpec, handler string) {
 		srv.Handler = h
 	}
 	srv.MsgInvalidFunc = func(m []byte, err error) {
+		bufferMu.Lock()
 		c := append([]byte{}, m...)
+		bufferMu.Unlock()
 		o.mu.Lock()
 		o.invalid = append(o.invalid, c)
 		hold := o.hold
@@ -348,9 +354,12 @@ func (o *observer) configure(srv *dns.Server, p policySpec, handler string) {
 		// goes back to the pool before (or while) the callback runs is filled with a later datagram
 		// under the callback's eyes. Nothing the library may do changes m before this function returns.
 		progressed := hold != nil && hold(len(m) < 12)
-		if !bytes.Equal(m, c) {
+		bufferMu.Lock()
+		now := append([]byte{}, m...)
+		bufferMu.Unlock()
+		if !bytes.Equal(now, c) {
 			o.mu.Lock()
-			o.changed = append(o.changed, fmt.Sprintf("%s became %s", hex.EncodeToString(c), hex.EncodeToString(m)))
+			o.changed = append(o.changed, fmt.Sprintf("%s became %s", hex.EncodeToString(c), hex.EncodeToString(now)))
 			o.mu.Unlock()
 		}
 		if progressed {
@@ -421,11 +430,16 @@ type outcome struct {
 	// in-memory transports: the server's SetWriteDeadline calls and the writes that failed on an expired deadline
 	wdlSets, wdlExpired []string
 	rdlExpired          []string // stream connections: reads of the server that ended on a read deadline during a pause of the client
+	heldAcross          int      // restart cases: reports that were held open across the restart
+	holdTimedOut        int      // in-memory datagram cases: report holds that were ended by their bound
 }
 
 const basePort = 10000
 
 func runUDP(c admitCase) (outcome, error) {
+	if c.Restart > 0 {
+		return runUDPRestart(c)
+	}
 	o := &observer{}
 	pc := newMemPC()
 	o.hold = pc.holdReport
@@ -471,6 +485,9 @@ func runUDP(c admitCase) (outcome, error) {
 		out.replies[p] = append(out.replies[p], d.b)
 	}
 	out.wdlSets, out.wdlExpired = pc.deadlineLog()
+	pc.mu.Lock()
+	out.holdTimedOut = pc.holdTimedOut
+	pc.mu.Unlock()
 	return out, nil
 }
 
@@ -1014,6 +1031,16 @@ func checkAdmit(c admitCase) error {
 	if c.inMemory() {
 		classes = append(classes, c.timeClasses(exp)...)
 	}
+	if c.Transport == "udp" {
+		switch {
+		case c.Restart == 0:
+			classes = append(classes, "runs=1")
+		case c.lastOfFirstRunShort():
+			classes = append(classes, "runs=2", "runs=2/first-ends-with-a-runt")
+		default:
+			classes = append(classes, "runs=2")
+		}
+	}
 	for i := range exp {
 		if exp[i].disp == "handler-or-refused" {
 			pbt.Note(kb, false, "not-judged:question-name-spelling")
@@ -1050,6 +1077,23 @@ func checkAdmit(c admitCase) error {
 	}
 	if err != nil {
 		return err
+	}
+	if !quietStats && out.obs != nil && c.Transport == "udp" {
+		out.obs.mu.Lock()
+		reports, held := len(out.obs.invalid), out.obs.held
+		out.obs.mu.Unlock()
+		if reports > 0 {
+			pbt.Class("invalid-report=octets-compared-on-return")
+		}
+		if held > 0 {
+			pbt.Class("invalid-report=held-while-the-serve-loop-read-on")
+		}
+		if out.heldAcross > 0 {
+			pbt.Class("invalid-report=held-open-across-a-restart")
+		}
+		if out.holdTimedOut > 0 {
+			pbt.Class("invalid-report=hold-ended-by-its-bound")
+		}
 	}
 	if err := judge(c, exp, out); err != nil {
 		if len(out.wdlExpired) > 0 {
@@ -1421,6 +1465,7 @@ func genAdmit(t *rapid.T) admitCase {
 	if c.inMemory() {
 		genTime(t, &c)
 	}
+	genRestart(t, &c)
 	if c.Transport == "udp" && rapid.IntRange(0, 7).Draw(t, "anonymous") == 0 {
 		// some senders have no address (unbound unixgram clients): ReadFrom returns a nil net.Addr
 		if pbt.Known(knownNoAddr) {
